@@ -1009,13 +1009,16 @@ mod verif_deflate_core {
         let (i_dict, i_lz, i_lb, i_h): (usize, usize, usize, usize) = (kani::any(), kani::any(), kani::any(), kani::any());
         kani::assume(i_dict < LZ_DICT_FULL_SIZE && i_lz < LZ_CODE_BUF_SIZE && i_lb < OUT_BUF_SIZE && i_h < MAX_HUFF_SYMBOLS);
         d.dict.b.dict[0] = kani::any(); d.lz.codes[i_lz] = kani::any(); d.params.local_buf.b[i_lb] = kani::any();
-        d.huff.count[0][i_h] = kani::any(); d.huff.codes[1][i_h] = kani::any(); d.huff.code_sizes[2][i_h] = kani::any();
+        // every one of the nine Huffman arrays (3 tables x count / codes / code_sizes), at a symbolic table and index
+        let t_h: usize = kani::any();
+        kani::assume(t_h < 3);
+        d.huff.count[t_h][i_h] = kani::any(); d.huff.codes[t_h][i_h] = kani::any(); d.huff.code_sizes[t_h][i_h] = kani::any();
         d.dict.b.hash[0] = kani::any(); d.dict.b.next[0] = kani::any();
 
         d.reset();
 
         assert!(d.params.flags == flags && d.params.window_bits_max == wbm && d.params.greedy_parsing == greedy && d.dict.max_probes[0] == probes[0] && d.dict.max_probes[1] == probes[1],
-            "OBL:reset.compressor_settings_preserved [C18]");
+            "OBL:reset.compressor_settings_preserved [C18 C11]");
         assert!(d.params.block_index == 0 && d.params.saved_match_dist == 0 && d.params.saved_match_len == 0 && d.params.saved_lit == 0, "OBL:reset.compressor_lazy_match_and_block_index_cleared [C18 C02]");
         assert!(d.params.flush == TDEFLFlush::None && d.params.flush_ofs == 0 && d.params.flush_remaining == 0 && !d.params.finished, "OBL:reset.compressor_pending_output_state_cleared [C18 C14]");
         assert!(d.params.adler32 == 1 && d.params.src_pos == 0 && d.params.out_buf_ofs == 0 && d.params.prev_return_status == TDEFLStatus::Okay, "OBL:reset.compressor_checksum_and_status_cleared [C18 C16]");
@@ -1023,7 +1026,7 @@ mod verif_deflate_core {
         assert!(d.dict.code_buf_dict_pos == 0 && d.dict.lookahead_size == 0 && d.dict.lookahead_pos == 0 && d.dict.size == 0, "OBL:reset.compressor_window_cursors_cleared [C18]");
         assert!(d.lz.code_position == 1 && d.lz.flag_position == 0 && d.lz.total_bytes == 0 && d.lz.num_flags_left == 8, "OBL:reset.compressor_token_buffer_cursors_fresh [C18]");
         assert!(d.lz.codes[i_lz] == 0 && d.params.local_buf.b[i_lb] == 0, "OBL:reset.compressor_buffers_zeroed [C18]");
-        assert!(d.huff.count[0][i_h] == 0 && d.huff.codes[1][i_h] == 0 && d.huff.code_sizes[2][i_h] == 0, "OBL:reset.compressor_huffman_tables_zeroed [C18]");
+        assert!(d.huff.count[t_h][i_h] == 0 && d.huff.codes[t_h][i_h] == 0 && d.huff.code_sizes[t_h][i_h] == 0, "OBL:reset.compressor_huffman_frequencies_codes_and_lengths_all_zeroed [C18]");
         // the fill model stands for all three whole-array fills (window u8, next u16, hash u16): each must be a fill of
         // the whole array with 0 (observed at index 0 + recorded lengths; the std contract extends it to every element)
         assert!(FILL_CALLS.load(core::sync::atomic::Ordering::Relaxed) == 3 && FILL_LEN_SUM.load(core::sync::atomic::Ordering::Relaxed) == LZ_DICT_FULL_SIZE + 2 * LZ_DICT_SIZE
@@ -1072,10 +1075,10 @@ mod verif_deflate_core {
     // K-fasttail : the real compress_fast with a flush requested and fewer than 4 bytes of work (the tail path:
     // no hashing, only the literal loop). Symbolic data, flags, window bits, flush mode; concrete positions.
     // ------------------------------------------------------------------
-    fn fast_tail_body<const N: usize>(la0: usize) {
+    fn fast_tail_body<const N: usize>(la0: usize, pos0: usize) {
         let mut d = any_compressor!();
+        concrete_window!(d.dict);
         kani::assume(d.params.flags & TDEFL_FORCE_ALL_RAW_BLOCKS == 0);
-        let pos0: usize = 1000;
         d.dict.lookahead_pos = pos0;
         d.dict.lookahead_size = la0;
         d.dict.size = kani::any();
@@ -1084,7 +1087,7 @@ mod verif_deflate_core {
         kani::assume(d.params.flush != TDEFLFlush::None);
         d.params.src_pos = 0;
         let pre: [u8; 3] = kani::any();
-        let mut k = 0; while k < 3 { if k < la0 { d.dict.b.dict[pos0 + k] = pre[k]; } k += 1; }
+        let mut k = 0; while k < 3 { if k < la0 { d.dict.b.dict[(pos0 + k) & LZ_DICT_SIZE_MASK] = pre[k]; } k += 1; }
         let inb: [u8; N] = kani::any();
         let mut outb = [0u8; 8];
         let ok;
@@ -1096,6 +1099,17 @@ mod verif_deflate_core {
         assert!(ok && d.params.src_pos == N, "OBL:fasttail.consumes_all_offered_input [C02]");
         assert!(d.dict.lookahead_size == 0, "OBL:fasttail.flush_request_drains_even_a_1_to_3_byte_lookahead [C12 C02]");
         assert!(d.dict.lookahead_pos == pos0 + total && d.lz.total_bytes as usize == total, "OBL:fasttail.every_byte_becomes_a_token [C01 C02 C12]");
+        // the input landed in the window at its stream position, and -- for the first 257 window bytes -- in the mirror
+        // behind the window's end too (the matchers read up to 258 bytes past a position without wrapping)
+        let mut j = 0;
+        while j < 3 {
+            if j < N {
+                let p = (pos0 + la0 + j) & LZ_DICT_SIZE_MASK;
+                assert!(d.dict.b.dict[p] == inb[j], "OBL:fasttail.input_copied_into_the_window_at_its_stream_position [C01 C02]");
+                if p < MAX_MATCH_LEN - 1 { assert!(d.dict.b.dict[LZ_DICT_SIZE + p] == inb[j], "OBL:fasttail.window_start_is_mirrored_behind_the_window_end [C01 C02]"); }
+            }
+            j += 1;
+        }
         // all literals, in order
         assert!(d.lz.code_position == 1 + total && d.lz.num_flags_left as usize == 8 - total, "OBL:fasttail.token_buffer_cursors [C02]");
         let mut i = 0;
@@ -1111,10 +1125,19 @@ mod verif_deflate_core {
     #[kani::unwind(8)]
     #[kani::stub(flush_block, model_flush_block_noop)]
     fn k_fast_tail() {
-        fast_tail_body::<1>(0);
-        fast_tail_body::<2>(1);
-        fast_tail_body::<0>(3);
-        fast_tail_body::<3>(0);
+        fast_tail_body::<1>(0, 1000);
+        fast_tail_body::<2>(1, 1000);
+        fast_tail_body::<0>(3, 1000);
+        fast_tail_body::<3>(0, 1000);
+    }
+    /// the same tail path where the new bytes land in the mirrored start of the window (window index 5, a chunk
+    /// shorter than the index) and where they straddle the window's end (index 32767, 0)
+    #[kani::proof]
+    #[kani::unwind(8)]
+    #[kani::stub(flush_block, model_flush_block_noop)]
+    fn k_fast_tail_window_wrap() {
+        fast_tail_body::<3>(0, 32768 + 5);
+        fast_tail_body::<2>(1, 2 * 32768 - 2);
     }
 
     // ------------------------------------------------------------------
@@ -1383,7 +1406,7 @@ mod verif_deflate_core {
                 // nothing better found: allowed (the search is a heuristic)
             } else {
                 assert!(rl > base, "OBL:findmatch.result_is_the_incoming_pair_or_strictly_longer [C10]");
-                assert!(rd >= 1, "OBL:findmatch.never_a_zero_distance_even_when_a_chain_entry_is_65536_bytes_old [C01 C10]");
+                assert!(rd >= 1, "OBL:findmatch.never_a_zero_distance_even_when_a_chain_entry_is_65536_bytes_old [C01 C02 C10]");
                 assert!(rd as usize <= max_dist, "OBL:findmatch.distance_within_the_callers_limit [C10 C11]");
                 assert!(rl <= core::cmp::min(mml, 258), "OBL:findmatch.length_within_the_callers_limit [C01 C10]");
                 assert!((rd == 10 && rl <= 5) || (rd == 300 && rl <= 7), "OBL:findmatch.reported_match_is_real_window_data [C01 C10]");
